@@ -20,7 +20,8 @@ CONSTANTS Contents,      \* file contents menu
 
 (* ------------------------------------------------------------------ part 1 *)
 Files == [kind : {"file"}, content : Contents, exec : BOOLEAN]
-Leaves == Files \cup {[kind |-> "link", target |-> "n"], [kind |-> "emptydir"]}
+\* symlinks with a plain target and with a target that is not in canonical form (the link must come back as it was spelled)
+Leaves == Files \cup {[kind |-> "link", target |-> "n"], [kind |-> "link", target |-> "./sub/../n"], [kind |-> "emptydir"]}
 SubDirs == UNION {[d -> Leaves] : d \in {S \in SUBSET SubNames : S # {} /\ Cardinality(S) <= MaxSub}}
 Entries == Leaves \cup {[kind |-> "dir", sub |-> d] : d \in SubDirs}
 DirTrees == UNION {[d -> Entries] : d \in {S \in SUBSET RootNames : S # {}}}
